@@ -245,6 +245,8 @@ struct Workload {
     keys: Vec<Vec<u8>>,
     hist: HashMap<Vec<u8>, Vec<St>>,
     blocks: u64,
+    /// standing invariants that failed at an acknowledged flush of the live store (props, what)
+    inv: Vec<(Vec<&'static str>, String)>,
 }
 
 fn gen_value(rng: &mut Rng, sector_hint: u64) -> Vec<u8> {
@@ -293,7 +295,8 @@ fn run_workload(rng: &mut Rng, rec: &Arc<Recorder>, path: &str, blocks: u64, ste
     rec.injected.store(0, Ordering::SeqCst);
     rec.fd.store(-1, Ordering::SeqCst);
     rec.enabled.store(true, Ordering::SeqCst);
-    let store = match open_store(path, blocks, false) {
+    let ttl_store = rng.chance(1, 2);
+    let store = match open_store(path, blocks, ttl_store) {
         Ok(s) => s,
         Err(_) => {
             rec.enabled.store(false, Ordering::SeqCst);
@@ -312,6 +315,7 @@ fn run_workload(rng: &mut Rng, rec: &Arc<Recorder>, path: &str, blocks: u64, ste
     let nkeys = rng.range(2, 5);
     let keys: Vec<Vec<u8>> = (0..nkeys).map(|i| format!("key-{}-{}", i, rng.below(1000)).into_bytes()).collect();
     let mut hist: HashMap<Vec<u8>, Vec<St>> = keys.iter().map(|k| (k.clone(), vec![St::Absent])).collect();
+    let mut inv_found: Vec<(Vec<&'static str>, String)> = vec![];
     let cur = |hist: &HashMap<Vec<u8>, Vec<St>>| -> Vec<(Vec<u8>, usize)> { hist.iter().map(|(k, v)| (k.clone(), v.len() - 1)).collect() };
     for _ in 0..steps {
         let k = rng.pick(&keys).clone();
@@ -371,9 +375,45 @@ fn run_workload(rng: &mut Rng, rec: &Arc<Recorder>, path: &str, blocks: u64, ste
                 let r = store.flush();
                 if std::env::var("FV_DEBUG").is_ok() { eprintln!("flush -> {:?}", r); }
                 rec.push(Ev::FlushEnd { ok: r.is_ok(), snap });
+                if r.is_ok() && inv_found.len() < 3 {
+                    let mut f = feox_verif_harness::inv::quiescent(&store);
+                    f.extend(feox_verif_harness::inv::after_flush(&store, path));
+                    inv_found.extend(f.into_iter().map(|x| (x.props.to_vec(), format!("at an acknowledged flush of the running store: {}", x.what))));
+                }
             }
-            87..=94 => {
+            87..=90 => {
                 std::thread::sleep(std::time::Duration::from_millis(rng.range(1, 120)));
+            }
+            91..=97 => {
+                // the other writing calls: every accepted one is a new generation of the key like any insert
+                let cur = store.verif_peek_value(&k);
+                let hint = 16 + rng.below(blocks - 16);
+                let fresh = gen_value(rng, hint);
+                let (name, r): (&str, Result<(), FeoxError>) = match rng.below(5) {
+                    0 => ("cas", match &cur { Some(c) => store.compare_and_swap(&k, c, &fresh).and_then(|sw| if sw { Ok(()) } else { Err(FeoxError::KeyNotFound) }), None => Err(FeoxError::KeyNotFound) }),
+                    1 => ("incr", { if cur.is_none() { let _ = store.insert(&k, &7i64.to_le_bytes()); } store.atomic_increment(&k, rng.range(1, 9) as i64).map(|_| ()) }),
+                    2 if ttl_store => ("update_ttl", store.update_ttl(&k, 100_000 + rng.below(1000))),
+                    3 if ttl_store => ("insert_with_ttl", store.insert_with_ttl(&k, &fresh, 200_000).map(|_| ())),
+                    _ => ("insert_bytes", store.insert_bytes(&k, bytes::Bytes::from(fresh.clone())).map(|_| ())),
+                };
+                rec.push(Ev::Begin(format!("{} {}", name, hex(&k))));
+                // (for `incr` on a fresh key two calls were made: both are reflected by the state read back)
+                let mut accepted = None;
+                if r.is_ok() || name == "incr" {
+                    let snap = store.verif_snapshot();
+                    let now_state = match snap.iter().find(|x| x.key == k) {
+                        Some(x) => store.verif_peek_value(&k).map(|v| St::Val { dig: fnv(&v), len: v.len(), ts: x.timestamp }),
+                        None => Some(St::Absent),
+                    };
+                    if let Some(stt) = now_state {
+                        let h = hist.get_mut(&k).unwrap();
+                        if h.last() != Some(&stt) {
+                            h.push(stt);
+                            accepted = Some(h.len() - 1);
+                        }
+                    }
+                }
+                rec.push(Ev::End { key: k.clone(), accepted, result: format!("{:?}", r.is_ok()) });
             }
             _ => {
                 let _ = store.get(&k);
@@ -398,7 +438,7 @@ fn run_workload(rng: &mut Rng, rec: &Arc<Recorder>, path: &str, blocks: u64, ste
     rec.drain_delay_ms.store(0, Ordering::SeqCst);
     rec.data_write_delay_ms.store(0, Ordering::SeqCst);
     rec.enabled.store(false, Ordering::SeqCst);
-    Some(Workload { keys, hist, blocks })
+    Some(Workload { keys, hist, blocks, inv: inv_found })
 }
 
 #[derive(Clone, Debug)]
@@ -1037,7 +1077,34 @@ fn fault_run(rng: &mut Rng, out: &mut Out, rec: &Arc<Recorder>, dir: &str, idx: 
         let mut mem_view: BTreeMap<Vec<u8>, St> = BTreeMap::new();
         for _ in 0..steps {
             let k = rr.pick(&keys).clone();
-            match rr.below(10) {
+            match rr.below(12) {
+                10 | 11 => {
+                    // compare-and-swap / increment / zero-copy insert: generations like any other
+                    let cur = store.verif_peek_value(&k);
+                    let flen = *rr.pick(&[40usize, 2500, 4500]);
+                    let fresh = rr.bytes(flen);
+                    let which = rr.below(3);
+                    rec.push(Ev::Begin(format!("{} {}", ["cas", "incr", "insert_bytes"][which as usize], hex(&k))));
+                    let _ = match which {
+                        0 => match &cur { Some(c) => store.compare_and_swap(&k, c, &fresh).map(|_| ()), None => Ok(()) },
+                        1 => { if cur.as_ref().is_none_or(|c| c.len() != 8) { let _ = store.insert(&k, &3i64.to_le_bytes()); } store.atomic_increment(&k, 2).map(|_| ()) }
+                        _ => store.insert_bytes(&k, bytes::Bytes::from(fresh.clone())).map(|_| ()),
+                    };
+                    let mut acc = None;
+                    let now_state = match store.verif_snapshot().iter().find(|x| x.key == k) {
+                        Some(x) => store.verif_peek_value(&k).map(|v| St::Val { dig: fnv(&v), len: v.len(), ts: x.timestamp }),
+                        None => Some(St::Absent),
+                    };
+                    if let Some(stt) = now_state {
+                        let h = hist.get_mut(&k).unwrap();
+                        if h.last() != Some(&stt) {
+                            match &stt { St::Absent => { mem_view.remove(&k); } v => { mem_view.insert(k.clone(), v.clone()); } }
+                            h.push(stt);
+                            acc = Some(h.len() - 1);
+                        }
+                    }
+                    rec.push(Ev::End { key: k, accepted: acc, result: String::new() });
+                }
                 0..=5 => {
                     let n = *rr.pick(&[50usize, 3000, 5000]);
                     let v = rr.bytes(n);
@@ -1139,7 +1206,7 @@ fn fault_run(rng: &mut Rng, out: &mut Out, rec: &Arc<Recorder>, dir: &str, idx: 
         // keep the handle out of the trace from here: drop without recording
         drop(store);
         let trace = rec.log.lock().unwrap().clone();
-        (trace, Some(Workload { keys, hist, blocks }), flushes, mem_view, reads_ok)
+        (trace, Some(Workload { keys, hist, blocks, inv: vec![] }), flushes, mem_view, reads_ok)
     };
     let (t0, w0, _, _, _) = rehearse(FaultPlan::default(), rec);
     if w0.is_none() { return; }
@@ -1601,6 +1668,9 @@ fn main() {
                 }
                 PRESSURE.store(false, Ordering::Relaxed);
                 if pressure { out.count("crash-workload-pressure"); }
+                for (props, what) in w.inv.iter().take(2) {
+                    for p in props { out.fail(p, format!("crash workload {}: {}", i, what), "-"); }
+                }
                 emit_dur_lines(&mut out, &w, &trace);
                 emit_txn_lines(&mut out, &trace, blocks, None);
                 explore_crashes(&mut rng, &mut out, &rec, &w, &trace, &format!("crash{}", i), budget, get("lean", 1) == 1);
